@@ -194,12 +194,17 @@ func c14CloseGuarded(tr transport.Transport) {
 
 type c14SlowCloseConn struct {
 	net.Conn
-	once sync.Once
+	once  sync.Once
+	delay time.Duration // 0 = 25 ms
 }
 
 func (c *c14SlowCloseConn) Close() (err error) {
 	c.once.Do(func() {
-		time.Sleep(25 * time.Millisecond)
+		if c.delay > 0 {
+			time.Sleep(c.delay)
+		} else {
+			time.Sleep(25 * time.Millisecond)
+		}
 		err = c.Conn.Close()
 	})
 	return err
@@ -425,4 +430,91 @@ func c14Exhaust(c *Ctx) {
 		c.Ev.Distinct("exhausted-connection", tname, conns >= 2)
 	}
 	c.Ev.Sample(map[string]any{"part": "id-exhaustion", "ids_used_before_the_batch": 65530, "slow_replies_ms": 500, "batch": "10 slow + 24 ordinary exchanges"})
+}
+
+// c14IdleEdge: pooled connections of the one-at-a-time transport reused at the very moment their
+// idle timer fires. 24 callers exchange, pause for about the idle time-out (30 ms +- 5 ms) and
+// exchange again, a few thousand times in all; the server is healthy and answers at once. Closing a
+// connection takes 300 us (as a TLS close_notify does), so the timer's close and the next pick
+// overlap often. Every exchange returns by its (2 s) deadline; nothing freezes.
+func c14IdleEdge(c *Ctx) {
+	const idle = 30 * time.Millisecond
+	once := func(seed int64) (exchanges, late int, first string, setup error) {
+		srv := scripted.NewServer(func(q *scripted.Query) scripted.Action { return scripted.Action{Tag: "echo", Leg: scripted.LegTCP} })
+		l, err := net.Listen("tcp4", "127.0.0.1:0")
+		if err != nil {
+			return 0, 0, "", err
+		}
+		srv.ServeStream(l)
+		defer srv.Close()
+		d := &scripted.Dialer{Network: "tcp", Addr: l.Addr().String()}
+		tr := transport.NewReuseConnTransport(transport.ReuseConnOpts{IdleTimeout: idle, DialContext: func(ctx context.Context) (net.Conn, error) {
+			cn, err := d.DialContext(ctx)
+			if err != nil {
+				return nil, err
+			}
+			return &c14SlowCloseConn{Conn: cn, delay: 300 * time.Microsecond}, nil
+		}})
+		defer c14CloseGuarded(tr)
+		var mu sync.Mutex
+		var stop atomic.Bool
+		var wg sync.WaitGroup
+		per := c.N(150, 600)
+		for w := 0; w < 24; w++ {
+			wg.Add(1)
+			go func(w int) {
+				defer wg.Done()
+				r := gen.New(seed, "c14idle", w)
+				for i := 0; i < per && !stop.Load(); i++ {
+					q := scripted.BuildQuery(uint16(w*1000+i), fmt.Sprintf("idle%d-%d.c14.test.", w, i), 1, 1)
+					const deadline = 2 * time.Second
+					ctx, cancel := context.WithTimeout(context.Background(), deadline)
+					t0 := time.Now()
+					m, _ := c14Guarded(tr, ctx, q, deadline+c14GiveUp)
+					took := time.Since(t0)
+					cancel()
+					if m != nil {
+						dnsmsg.ReleaseMsg(m)
+					}
+					mu.Lock()
+					exchanges++
+					if took > deadline+c14Slack {
+						late++
+						if first == "" {
+							first = fmt.Sprintf("caller %d exchange %d returned after %v", w, i, took)
+						}
+						if late >= 4 {
+							stop.Store(true)
+						}
+					}
+					mu.Unlock()
+					time.Sleep(idle + time.Duration(r.Range(-5000, 5000))*time.Microsecond)
+				}
+			}(w)
+		}
+		wg.Wait()
+		return
+	}
+	n, late, first, err := once(c.Seed)
+	if err != nil {
+		c.Inconclusive("idle-edge setup: " + err.Error())
+		return
+	}
+	c.Ev.Eval(n)
+	c.Ev.Count("idle_edge_exchanges", int64(n))
+	if late == 0 {
+		c.Ev.Distinct("idle-edge", "ctor-reuse", n > 500)
+		c.Ev.Sample(map[string]any{"part": "idle-edge", "callers": 24, "idle_timeout_ms": 30, "pause_ms": "25-35", "close_takes_us": 300, "exchanges": n})
+		return
+	}
+	for k := 0; k < 3; k++ {
+		_, late2, _, err := once(c.Seed + 1000*int64(k+1))
+		c.Ev.Count("idle_edge_confirmation_runs", 1)
+		if err == nil && late2 > 0 {
+			c.Violation("idle-edge:late-return:ctor-reuse", fmt.Sprintf("ReuseConnTransport (idle time-out 30 ms, callers pausing 25-35 ms between exchanges, healthy server): %d of %d exchanges returned more than %v after their 2 s deadline (first: %s); reproduced on a fresh transport", late, n, c14Slack, first),
+				map[string]any{"fn": "c14IdleEdge", "exchanges": n, "late": late, "first": first})
+			return
+		}
+	}
+	c.Inconclusive(fmt.Sprintf("idle-edge: %d late exchanges not reproduced", late))
 }
